@@ -716,5 +716,58 @@ def r07_4(ctx):
     return r
 
 
+def r07_5(ctx):
+    """'no unbounded loop' for the stream readers: `AsyncReadExt::read` returns Ok(0) at end of stream, for ever. A loop that
+    keeps calling it until some byte count is reached therefore has to leave when a read returns 0 - otherwise a peer that
+    closes the connection inside a frame turns the loop into a busy spin (the task never returns a value or an error).
+    R07.2 does not look at these loops (their back edge crosses an await, like an event loop). Decided: every loop that
+    contains an `AsyncReadExt::read` call tests that call's own result against 0 and leaves the loop on the zero edge."""
+    r = RuleResult("R07.5", "K4", "a loop that reads from a stream leaves on a 0-byte read (end of stream)")
+    n = 0
+    for b in ctx.facts.all_bodies():
+        if "::tests::" in b.name or b.name.startswith("tests::"):
+            continue
+        reads = [bi for bi, t, p in b.calls() if p and p.endswith("io::AsyncReadExt::read")]
+        if not reads:
+            continue
+        for h, blocks in b.loops():
+            blocks = set(blocks)
+            inside = [bi for bi in reads if bi in blocks]
+            if not inside:
+                continue
+            # innermost loop only
+            if any(set(bl2) < blocks and any(bi in bl2 for bi in inside) for _h2, bl2 in b.loops()):
+                continue
+            n += 1
+            r.scope.append(b.name)
+            ok = False
+            for sb in blocks:
+                if b.blocks[sb]["t"]["k"] != "switch" or sb in b.cleanup:
+                    continue
+                term, outs = b.switch_info(sb)
+                t = term
+                while t[0] == "un" and t[1] == "Not":
+                    t = t[2]
+                if t[0] != "bin" or t[1] not in ("Eq", "Ne", "Gt", "Lt", "Le", "Ge"):
+                    continue
+                for x, c in ((t[2], t[3]), (t[3], t[2])):
+                    if mir.int_value(c) != 0 or x[0] == "bin":
+                        continue
+                    forms = [x] + list(core.expand_vars(b, x, depth=2))
+                    if any(f[0] != "bin" and mir.has(f, lambda z: z[0] == "call" and z[1].endswith("io::AsyncReadExt::read")) for f in forms):
+                        # one of the edges leaves the loop (or the function)
+                        if any(tgt not in blocks for tgt, _, _m in outs) or \
+                                any(any(b.blocks[y]["t"]["k"] == "ret" for y in b.reachable([tgt], cut_blocks={h})) for tgt, _, _m in outs):
+                            ok = True
+            if ok:
+                r.ok({"loop": b.where(h), "in": b.name.split("::")[-2] if "{closure" in b.name else b.name.split("::")[-1], "leaves on": "read(..) == 0"})
+            else:
+                r.violate(b.name, "read-loop:no-eof-exit", b.where(inside[0]),
+                          "this loop calls read() until a byte count is reached but never tests the call's result against 0: when the peer closes the "
+                          "stream read() returns Ok(0) for ever and the loop spins - the task neither returns a value nor an error")
+    r.need("loops reading from a stream with read()", n, 1)
+    return r
+
+
 def run(ctx):
-    return [r07_1(ctx), r07_2(ctx), r07_3(ctx), r07_4(ctx)]
+    return [r07_1(ctx), r07_2(ctx), r07_3(ctx), r07_4(ctx), r07_5(ctx)]
